@@ -370,13 +370,13 @@ func main() {
 			w = filepath.Join(scratch, "worker-race")
 		}
 		cmd := exec.Command(w, "-mode", "replay", "-file", *replay, "-bindir", binDir)
-		cmd.Env = append(os.Environ(), "GORACE=log_path="+filepath.Join(outDir, "race")+" halt_on_error=0")
+		cmd.Env = append(os.Environ(), "GORACE=log_path="+filepath.Join(outDir, "race")+" halt_on_error=0 exitcode=0")
 		var out bytes.Buffer
 		cmd.Stdout = &out
 		cmd.Stderr = os.Stderr
 		err := cmd.Run()
 		fmt.Print(out.String())
-		if strings.Contains(out.String(), "REPRODUCED property=") {
+		if strings.Contains(out.String(), "\nREPRODUCED property=") {
 			for _, k := range kf {
 				if k.kind == "known" && k.prop == *prop && k.sig == replayHead.Viol.Sig {
 					fmt.Printf("KNOWN-FINDING: property=%s %s\n", *prop, k.text)
@@ -425,7 +425,7 @@ func main() {
 						"-runs", fmt.Sprint(ph.runs), "-budget_s", fmt.Sprint(ph.budgetS), "-out", outDir, "-replays", repDir, "-shrink_s", fmt.Sprint(shrinkS), "-tree", tree, "-bindir", binDir}
 					args = append(args, ph.extra...)
 					cmd := exec.Command(w, args...)
-					cmd.Env = append(os.Environ(), "GORACE=log_path="+filepath.Join(outDir, fmt.Sprintf("race.%s.%d", tag, k))+" halt_on_error=0", "GOMAXPROCS="+[]string{"1", "4", "16"}[k%3])
+					cmd.Env = append(os.Environ(), "GORACE=log_path="+filepath.Join(outDir, fmt.Sprintf("race.%s.%d", tag, k))+" halt_on_error=0 exitcode=0", "GOMAXPROCS="+[]string{"1", "4", "16"}[k%3])
 					cmd.Dir = scratch
 					var errb bytes.Buffer
 					cmd.Stderr = &errb
@@ -625,9 +625,9 @@ func main() {
 			ok := 0
 			for i := 0; i < 2; i++ {
 				cmd := exec.Command(w, "-mode", "replay", "-file", v.ReplayFile, "-bindir", binDir)
-				cmd.Env = append(os.Environ(), "GORACE=log_path="+filepath.Join(outDir, "replayrace")+" halt_on_error=0")
+				cmd.Env = append(os.Environ(), "GORACE=log_path="+filepath.Join(outDir, "replayrace")+" halt_on_error=0 exitcode=0")
 				out, _ := cmd.Output()
-				if strings.Contains(string(out), "REPRODUCED property=") && strings.Contains(string(out), "same_trace=true") {
+				if strings.Contains(string(out), "\nREPRODUCED property=") && strings.Contains(string(out), "same_trace=true") {
 					ok++
 				}
 			}
